@@ -92,6 +92,17 @@ impl Executor for StatefulExecutor {
             // apply document-wide testcase defaults
             testcase.config = testcase.config.with_defaults_from(&context.config.defaults);
 
+            // waiting on previous execution; this uses up time of the document, so it
+            // comes before what is left of that time is looked at
+            if let Some(ref wait) = testcase.config.wait {
+                debug!("waiting {}", wait);
+                if let Some(ref path) = wait.path {
+                    wait_until_path_or_time(&context.temp_directory.join(path), wait.timeout)
+                } else {
+                    sleep(wait.timeout);
+                }
+            }
+
             // timeout is whatever the lowest provided value of:
             // - global (over all executions) timeout
             // - local (per execution) timeout
@@ -124,16 +135,6 @@ impl Executor for StatefulExecutor {
             );
             let span = trace_span!("execution", expression = &testcase.shell_expression, timeout = ?&timeout);
             let _enter = span.enter();
-
-            // waiting on previous execution
-            if let Some(ref wait) = testcase.config.wait {
-                debug!("waiting {}", wait);
-                if let Some(ref path) = wait.path {
-                    wait_until_path_or_time(&context.temp_directory.join(path), wait.timeout)
-                } else {
-                    sleep(wait.timeout);
-                }
-            }
 
             // set timeout and identifying environment variable
             testcase.config.timeout = timeout;
